@@ -89,7 +89,10 @@ pub struct SigChannel;
 
 pub fn msg_len(rng: &mut Rng) -> usize {
     const MENU: [usize; 20] = [0, 1, 47, 48, 63, 64, 65, 79, 80, 95, 96, 97, 111, 112, 128, 175, 176, 191, 192, 193];
-    if rng.chance(2, 3) {
+    if rng.chance(1, 60) {
+        // a long message now and then (several SHA-512 blocks after the prefixes; buffer-size thresholds)
+        *rng.pick(&[1000usize, 4031, 4032, 4033, 4096, 8000])
+    } else if rng.chance(2, 3) {
         *rng.pick(&MENU)
     } else {
         rng.below(300) as usize
@@ -245,7 +248,7 @@ impl Scenario for SigChannel {
     fn execute(&self, t: &Trace, obs: &mut Obs) -> Result<(), Violation> {
         let mut seed = [0u8; 32];
         seed.copy_from_slice(&data(t.p("seed_seed"), 32));
-        let msg = data(t.p("msg_seed"), (t.p("msg_len") as usize).min(4096));
+        let msg = data(t.p("msg_seed"), (t.p("msg_len") as usize).min(16384));
         let extended = t.p("extended") == 1;
         let (pk, sig) = guarded(|| honest(&seed, &msg, extended)).map_err(|m| Violation::new("unexpected-panic", 0, "keypair/signature", m, "ed25519"))?;
         obs.out(&pk);
